@@ -55,6 +55,8 @@ def mutants(prog):
         ("grad_loss: power after reduction", L, "grad_loss", "if q == 0:\n        loss.abs_()\n    elif q != 1:\n        loss.pow_(q)\n    loss = reduce_loss(loss, reduction)", "loss = reduce_loss(loss, reduction)\n    if q == 0:\n        loss.abs_()\n    elif q != 1:\n        loss.pow_(q)", "T17.nullspace"),
         ("fd spacing of the first item", "deepali.core.image", "spatial_derivatives", "fd_spacing = spacing[:, sdim]", "fd_spacing = spacing[0, sdim]", "T5.batch-spacing"),
         ("GradLoss: q=0 conflated with None", "deepali.losses.flow", "GradLoss.__init__", "self.q = 1 / p if q is None else q", "self.q = q or 1 / p", "T17.module-values"),
+        ("elasticity: shear term skipped when lambda is zero", L, "elasticity_loss", "if mu != 0:", "if mu != 0 and lambd != 0:", "T17.values"),
+        ("elasticity: trace term skipped when mu is zero", L, "elasticity_loss", "if lambd != 0:", "if lambd != 0 and mu != 0:", "T17.values"),
     ]
     for name, mod, fn, old, new, expect in specs:
         ov = source_sub(prog, mod, fn, old, new)
